@@ -335,6 +335,13 @@ def _menus():
                 generator=CLGen(num_rows=r, num_cols=c, num_agents=a),
                 time_limit=t if time_limit == "dflt" else time_limit),
             rows=r, cols=c, agents=a, time_limit=t if t is not None else r * c)
+    # the step penalty is a constructor argument of its own (boundary value 0 included)
+    for r, c, a, t, pen in ((4, 6, 2, 12, 0.0), (6, 4, 1, None, 0.25)):
+        add("Cleaner", f"r{r}c{c}a{a}t{t}p{int(pen*100)}",
+            lambda r=r, c=c, a=a, t=t, pen=pen, time_limit="dflt", **k: E.Cleaner(
+                generator=CLGen(num_rows=r, num_cols=c, num_agents=a),
+                time_limit=t if time_limit == "dflt" else time_limit, penalty_per_timestep=pen),
+            rows=r, cols=c, agents=a, time_limit=t if t is not None else r * c, penalty=pen)
     from jumanji.environments.routing.connector import generator as cng
     for g, a, t, gen in ((5, 2, 7, "rw"), (4, 1, 3, "uni"), (6, 3, 50, "rw"), (10, 10, 50, "rw"),
                          (6, 3, 2, "uni"), (5, 2, 1, "uni"), (10, 10, 50, "uni"), (8, 4, 50, "rw")):
@@ -344,6 +351,14 @@ def _menus():
                     grid_size=g, num_agents=a),
                 time_limit=t if time_limit is None else time_limit),
             grid=g, agents=a, time_limit=t, gen=gen)
+    from jumanji.environments.routing.connector.reward import DenseRewardFn as CNDense
+    for g, a, t, cr, tr in ((5, 2, 12, 2.0, 0.0), (6, 3, 20, 0.0, -0.5)):
+        add("Connector", f"g{g}a{a}t{t}rwc{int(cr*10)}s{int(-tr*100)}",
+            lambda g=g, a=a, t=t, cr=cr, tr=tr, time_limit=None, **k: E.Connector(
+                generator=cng.RandomWalkGenerator(grid_size=g, num_agents=a),
+                reward_fn=CNDense(connected_reward=cr, timestep_reward=tr),
+                time_limit=t if time_limit is None else time_limit),
+            grid=g, agents=a, time_limit=t, gen="rw", connected_reward=cr, timestep_reward=tr)
     from jumanji.environments.routing.cvrp.generator import UniformGenerator as CVGen
     from jumanji.environments.routing.cvrp.reward import DenseReward as CVDense
     from jumanji.environments.routing.cvrp.reward import SparseReward as CVSparse
@@ -521,7 +536,7 @@ QUICK = {
     "RubiksCube": ["n2s1t3", "n3s7t7"], "SlidingTilePuzzle": ["g3m50t7d", "g2m1t3s"],
     "Sudoku": ["veryeasy", "dummy", "veryeasy_u8"], "BinPack": ["r10e20s2", "r5e10s1o6"], "FlatPack": ["r2c3b", "r3c2c"],
     "JobShop": ["j3m2o3d2", "j5m4o4d4", "j40m4o3d4"], "Knapsack": ["n10s", "n50d", "q8d"], "Tetris": ["r6c5t400", "r10c10t400"],
-    "Cleaner": ["r3c7a1t7", "r5c11a2tNone", "r3c3a2tNone"], "Connector": ["g5a2t7rw", "g6a3t50rw"],
+    "Cleaner": ["r3c7a1t7", "r5c11a2tNone", "r3c3a2tNone", "r4c6a2t12p0"], "Connector": ["g5a2t7rw", "g6a3t50rw", "g5a2t12rwc20s0"],
     "CVRP": ["n5s", "n20d", "zb6d"], "LevelBasedForaging": ["g6a2f2v2l2cVNp0t100", "g8a3f3v3l3nGRp5t100", "g7a2f3v7l2nGRp0t40", "g5a3f1v5l2nVNp0t40"],
     "Maze": ["r4c7tNone", "r5c5t7"], "MMST": ["n12e18a2k3t7", "n12e18a3k2t30"], "MultiCVRP": ["c6v2d", "c6v3s"],
     "PacMan": ["t40", "small200", "tunnel120"], "RobotWarehouse": ["s1x3h3a2r1q2t500", "s1x3h2a1r1q1t7"],
